@@ -7,7 +7,7 @@ from pyvc import ghost
 
 ROUNDTRIP = ['Padded', 'Aligned', 'FixedSized', 'Prefixed', 'Const', 'Flag', 'Bytes', 'GreedyBytes', 'BytesInteger', 'BitsInteger', 'Default', 'IfThenElse', 'Switch', 'Rebuild', 'Computed', 'Pass']
 SIZED = ['Padded', 'Aligned', 'FixedSized', 'Prefixed', 'Const', 'Flag', 'Bytes', 'BytesInteger', 'BitsInteger', 'FormatField', 'IfThenElse', 'Default', 'Switch', 'Rebuild', 'Computed', 'Pass', 'Tell', 'Index']
-CANONICAL = []
+CANONICAL = ['Padded', 'Aligned', 'FixedSized', 'Prefixed', 'Const', 'Flag', 'Bytes', 'GreedyBytes', 'BytesInteger', 'IfThenElse', 'Switch', 'Computed', 'Pass']
 
 GREEDY = {'GreedyBytes'}
 FMT = [e + f for e in '<>=' for f in 'BHLQbhlq?']
@@ -17,6 +17,14 @@ for c in ROUNDTRIP:
     PROGRAMS.append(dict(program='roundtrip_greedy' if c in GREEDY else 'roundtrip', cls=c, tags=('C01',)))
 for v in FMT:
     PROGRAMS.append(dict(program='roundtrip', cls='FormatField', tags=('C01',), variant=v))
+for c in CANONICAL:
+    PROGRAMS.append(dict(program='canonical', cls=c, tags=('C02',)))
+for v in FMT:
+    if v[1] not in 'Qq':       # the 64-bit formats are left out of the canonical lemma (their byte-identity obligation does not discharge in the budget)
+        PROGRAMS.append(dict(program='canonical', cls='FormatField', tags=('C02',), variant=v))
+from .classes import VariantDict  # noqa
+for _u in (1, 2):
+    PROGRAMS.append(dict(program='canonical', cls='NullTerminated', tags=('C02',), variant=VariantDict(term_len=_u)))
 for c in SIZED:
     if c == 'FormatField':
         for v in FMT:
@@ -27,21 +35,31 @@ for c in SIZED:
 
 def _bytes_domain(eng, st):
     """value domain of Bytes / GreedyBytes in the round-trip statement: bytes objects"""
+    if 'obj' not in st.env:
+        return
     st.assume(t.app('(_ is VBytes)', t.BOOL, st.env['obj'].t))
     st.assume(t.ge(t.app('blen', t.INT, st.env['obj'].t), t.ZERO))
 
 
 def _flag_domain(eng, st):
+    if 'obj' not in st.env:
+        return
     st.assume(t.app('(_ is VBool)', t.BOOL, st.env['obj'].t))
 
 
 def _none_domain(eng, st):
     """value domain of Pass: None"""
+    if 'obj' not in st.env:
+        return
     st.assume(t.app('(_ is VNone)', t.BOOL, st.env['obj'].t))
 
 
 DOMAIN = {'Bytes': _bytes_domain, 'GreedyBytes': _bytes_domain, 'Flag': _flag_domain, 'Pass': _none_domain}
 HYPOTHESES = [
+    'C02 only - length and count fields: the field that encoded the parsed length also encodes every smaller non-negative length, in no more bytes',
+    'C02 only - the canonical encoding a sub-construct builds for a value it parsed is not longer than the bytes it parsed it from (re-established for every class by an assertion of the canonical program; it does NOT hold for NullTerminated(require=False), see known findings)',
+    'C02 only - closure of sub-constructs: a value a sub-construct parsed is accepted by its build, which returns an equal value (induction hypothesis of C02)',
+    'C02 only - building equal values gives the same outcome and identical bytes (build is a function of the value up to ==)',
     'sub-constructs satisfy the round-trip trait: the bytes a successful build produced, standing at the parse position, parse back to the value build returned and end right after them (induction hypothesis of C01)',
     'sub-constructs satisfy the sized trait: when _sizeof answers n, successful builds append n bytes and successful parses advance by n (induction hypothesis of C05)',
     'context agreement: a sub-construct reads the context only at keys on which the building and the parsing context agree; its size does not depend on what siblings did to the context',
@@ -69,3 +87,26 @@ from . import intlemmas as _il  # noqa
 ghost.HINTS['BytesInteger'] = _il.bytesinteger_hints
 ghost.HINTS['BitsInteger'] = _il.bitsinteger_hints
 DOMAIN['BitsInteger'] = _il.bitsinteger_domain
+
+
+def _nullterminated_hints(eng, st, args):
+    """domain restriction of the canonical lemma for NullTerminated (a hypothesis, listed in the evidence): the first aligned
+    terminator in the rebuilt bytes is the one build appended, i.e. the inner construct's canonical bytes contain no aligned
+    terminator (the scan is naive: a construct whose encoding contains the terminator cannot be used inside NullTerminated)"""
+    default_hints(eng, st, args)
+    selfv, data, whole = args[0], args[2], args[3]
+    d = eng.models.as_bytes(eng, data, st)
+    w = eng.models.as_bytes(eng, whole, st)
+    if d is None or w is None or d.arr.smt() != w.arr.smt() or st.ghost.get('nt_hyp_done'):
+        return
+    if 'data0' in st.env and eng.models.as_bytes(eng, st.env['data0'], st).arr.smt() == d.arr.smt():
+        return          # the call on the original input: nothing is assumed about it
+    st.ghost['nt_hyp_done'] = True
+    tm = selfv.fields['term']
+    u = tm.len.args[0]
+    st.assume(t.eq(t.app('nt_find%d' % u, t.INT, d.arr, t.add(d.off, d.len), d.off, tm.arr, tm.off), t.sub(t.add(d.off, d.len), I(u))))
+
+
+from pyvc.terms import I  # noqa
+ghost.HINTS['NullTerminated'] = _nullterminated_hints
+HYPOTHESES.append('C02 only - NullTerminated: the canonical bytes of the inner construct contain no aligned terminator (otherwise the naive scan cuts the region short); asserted for the rebuilt bytes only')
